@@ -230,7 +230,11 @@ void BpEndecodeArray(struct BpArrayDescriptor *descriptor,
 
     // Skip redundant bits if decoding.
     if (descriptor->extensible && (!ctx->is_encode)) {
-        int ito = i + (((int)ahead) * descriptor->cap);
+        // Number of bits occupied by each element just processed (after the
+        // 16 bits ahead flag), the opponent's extra elements are of this size.
+        int nbits_per_element = (ctx->i - i - 16) / descriptor->cap;
+        // The opponent array occupies 16 + ahead * nbits_per_element bits.
+        int ito = i + 16 + (((int)ahead) * nbits_per_element);
         if (ito >= ctx->i) {
             ctx->i = ito;
         }
